@@ -1367,7 +1367,6 @@ package sdf
 //@ func ConeSDF3.Evaluate
 //@   property C03
 //@   id EXACT
-//@   opt thorough
 //@   requires s.height > 0 && s.r0 > 0 && s.r1 > 0 && s.l > 0
 //@   requires s.l*s.l == sq(s.r1 - s.r0) + sq(2*s.height)
 //@   requires s.u.X*s.l == s.r1 - s.r0 && s.u.Y*s.l == 2*s.height
@@ -2454,7 +2453,7 @@ package sdf
 //@ end
 
 //@ func ArraySDF2.Evaluate
-//@   property C01 C02
+//@   property C01 C02 C03
 //@   id value-of-the-operand-at-one-grid-offset
 //@   pure
 //@   local
@@ -2488,7 +2487,7 @@ package sdf
 //@ spec off3(s *ArraySDF3, p v3.Vec, j int, k int, l int) = p.Sub(v3.Vec{real(j)*s.step.X, real(k)*s.step.Y, real(l)*s.step.Z})
 
 //@ func ArraySDF3.Evaluate
-//@   property C01 C02
+//@   property C01 C02 C03
 //@   id value-of-the-operand-at-one-grid-offset
 //@   pure
 //@   local
